@@ -343,7 +343,8 @@ def rule_class_generator_base(case, sig, extra, match):
     """C12-F17: a bare generator expression as the only "argument" of a class statement compiles in CPython (the
     check for unparenthesised generators applies to calls), parso reports invalid syntax."""
     text, v, m = extra
-    if len(sig) < 2 or sig[1] != 'SyntaxError: invalid syntax':
+    if len(sig) < 2 or sig[1] not in ('SyntaxError: invalid syntax',
+                                      'SyntaxError: Generator expression must be parenthesized if not sole argument'):
         return False
     for cd in _names_in(m, ('classdef',)):
         for c in cd.children:
@@ -352,10 +353,28 @@ def rule_class_generator_base(case, sig, extra, match):
     return False
 
 
+_LEADING_BS_JOIN = re.compile(r'(\A|\r\n|\r|\n)([ \t\f]*)\\(?:\r\n|\r|\n)[ \t\f]*')
+
+
+def rule_leading_backslash(case, sig, extra, match):
+    """C12-F18 (= C10-F3): a backslash continuation that is the first thing on a line does not start a logical line
+    for parso, so the indentation of the continued line counts ('unexpected indent' on a program CPython accepts).
+    Predicate: with CPython's reading applied by hand (the continuation joined, the continued line's leading
+    whitespace dropped) parso reports nothing."""
+    text, v, m = extra
+    if not _LEADING_BS_JOIN.search(text):
+        return False
+    import parso
+    t2 = _LEADING_BS_JOIN.sub(lambda mm: mm.group(1) + mm.group(2), text)
+    g = parso.load_grammar(version=v)
+    m2 = g.parse(t2)
+    return not has_err(m2) and not list(g.iter_errors(m2))
+
+
 def rule_await_36(case, sig, extra, match):
     """C12-F6: grammar 3.6 treats async/await as keywords; CPython 3.6 still accepts them as identifiers
     (documented upstream limitation), so e.g. a call `await ()` is judged as an await expression."""
-    return case.get('version') == '3.6' and len(sig) > 1 and ("'await'" in sig[1] or 'async' in sig[1])
+    return case.get('version') == '3.6' and len(sig) > 1 and ('await' in sig[1] or 'async' in sig[1])
 
 
 def rule_debug_global(case, sig, extra, match):
@@ -365,7 +384,7 @@ def rule_debug_global(case, sig, extra, match):
         sig[1] == "SyntaxError: name '__debug__' is used prior to global declaration"
 
 
-RULES = {'c12_class_generator_base': rule_class_generator_base, 'c12_global_paren_annotation': rule_global_paren_annotation, 'c12_global_comprehension_target': rule_global_comprehension_target, 'c12_continue_finally_loop': rule_continue_finally_loop, 'c12_async_comprehension': rule_async_comprehension,
+RULES = {'c12_leading_backslash': rule_leading_backslash, 'c12_class_generator_base': rule_class_generator_base, 'c12_global_paren_annotation': rule_global_paren_annotation, 'c12_global_comprehension_target': rule_global_comprehension_target, 'c12_continue_finally_loop': rule_continue_finally_loop, 'c12_async_comprehension': rule_async_comprehension,
          'c12_walrus_argument': rule_walrus_argument, 'c12_nested_format_spec': rule_nested_format_spec,
          'c12_pep701': rule_pep701, 'c12_global_type_params': rule_global_type_params, 'c12_await_36': rule_await_36, 'c12_debug_global': rule_debug_global, 'c12_formfeed_indent': rule_formfeed_indent, 'c12_global_lambda': rule_global_lambda,
          'c12_global_import': rule_global_import, 'c12_global_annotation_module': rule_global_annotation_module,
